@@ -242,4 +242,113 @@ theorem derivatives_thread_invariant (w : Option (ℕ → ℝ)) (g : ℕ → ℕ
   · rw [hessian_sum w h N T₁ i j hN h1 hsym, hessian_sum w h N T₂ i j hN h2 hsym]
   · rw [bhhh_sum w g N T₁ i j hN h1, bhhh_sum w g N T₂ i j hN h2]
 
+/-! ### "for the same parameters": named values → the vector of the engine
+
+`simulate(the_beta_values)` receives the parameter point as a dict; `calculate_likelihood(x)` as
+a vector in the order of `free_beta_names`.  The two denote the same point exactly when entry `i`
+of the vector built from the dict is the value stored under name `i` — whatever the order in which
+the dict was written and whatever other entries it holds. -/
+
+/-- the vector is built **by name**: it exists iff every free parameter has an entry, and then
+its `i`-th entry is the value stored under the `i`-th name -/
+theorem beta_vector_by_name {β : Type} (names : List String) (d : List (String × β)) (vs : List β) :
+    betaVector names d = .ok vs ↔ names.map (fun n => d.lookup n) = vs.map some :=
+  betaVector_ok_iff names d vs
+
+/-- **the order in which the entries of the dict were written is irrelevant** -/
+theorem beta_vector_order {β : Type} (names : List String) (d d' : List (String × β))
+    (hp : d.Perm d') (hkeys : (d.map Prod.fst).Nodup) : betaVector names d' = betaVector names d :=
+  betaVector_congr names d d' fun n _ => lookup_perm d d' n hp hkeys
+
+/-- **entries of parameters the model does not have are irrelevant**, wherever they stand in the
+dict: only the sub-dict of the model's own names matters -/
+theorem beta_vector_foreign {β : Type} (names : List String) (d : List (String × β)) :
+    betaVector names (d.filter fun e => names.contains e.1) = betaVector names d :=
+  betaVector_congr names d _ fun n hn =>
+    lookup_filter (fun k => names.contains k) d n (List.contains_iff_mem.2 hn)
+
+/-- two dicts with the same entries for the model's names (in any order, with any foreign
+entries in between) give the same vector, hence the same simulated values -/
+theorem beta_vector_same_point {β : Type} (names : List String) (d d' : List (String × β))
+    (hkeys : ((d.filter fun e => names.contains e.1).map Prod.fst).Nodup)
+    (hp : (d.filter fun e => names.contains e.1).Perm (d'.filter fun e => names.contains e.1)) :
+    betaVector names d' = betaVector names d := by
+  rw [← beta_vector_foreign names d', ← beta_vector_foreign names d]
+  exact beta_vector_order names _ _ hp hkeys
+
+/-- a free parameter without entry is an error naming a missing parameter (never a default) -/
+theorem beta_vector_incomplete {β : Type} (names : List String) (d : List (String × β)) (n : String)
+    (hn : n ∈ names) (hmiss : d.lookup n = none) :
+    ∃ e, betaVector names d = .error e ∧ e ∈ names ∧ d.lookup e = none :=
+  betaVector_error names d n hn hmiss
+
+example : betaVector ["asc", "b_cost", "b_time"]
+    [("not_in_model", 7), ("b_time", 1), ("asc", 3), ("b_cost", 2)] = .ok [3, 2, 1] := by decide
+example : betaVector ["asc", "b_cost", "b_time"] [("b_time", 1), ("asc", 3)] = .error "b_cost" := by
+  decide
+example : foreignKeys ["asc", "b_cost"] [("B_COST", 1), ("asc", 3), ("b_cost", 2), ("zz", 0)]
+    = ["B_COST", "zz"] := by decide
+
+/-! ### sample size: rows, or individuals of panel data -/
+
+/-- `get_sample_size()`: the number of rows without panel; with panel the number of distinct
+values of the panel column — each individual once, every id of the column among them, never
+more than the number of rows -/
+theorem sample_size (ids : List Int) (nRows : Nat) :
+    sampleSize none nRows = nRows ∧
+    sampleSize (some ids) nRows = (distinct ids).length ∧
+    (distinct ids).Nodup ∧ (∀ i, i ∈ distinct ids ↔ i ∈ ids) ∧
+    (distinct ids).length ≤ ids.length :=
+  ⟨rfl, rfl, nodup_distinct ids, mem_distinct ids, length_distinct_le ids⟩
+
+example : sampleSize (some [5, 5, 5, -2, 7, 7]) 6 = 3 := by decide
+example : distinct [5, 5, 5, -2, 7, 7] = [5, -2, 7] := by decide
+example : individualRows [5, 5, 5, -2, 7, 7] 7 = [4, 5] := by decide
+
+/-- **every row belongs to exactly one individual**: the rows of the individuals, one individual
+after the other, are a rearrangement of the rows `0 … N−1` -/
+theorem individuals_partition (ids : List Int) :
+    ((distinct ids).flatMap (individualRows ids)).Perm (List.range ids.length) :=
+  individuals_perm ids
+
+/-- adding, individual by individual, a row quantity (the log of a product over the rows of the
+individual is the sum of the logs) is adding it over the rows -/
+theorem individuals_sum (ids : List Int) (x : ℕ → ℝ) :
+    ((distinct ids).map fun i => ((individualRows ids i).map x).sum).sum
+      = ((List.range ids.length).map x).sum := by
+  have h := (individuals_perm ids).map x
+  rw [← List.Perm.sum_eq h, List.flatMap_def, List.map_flatten, List.sum_flatten, List.map_map,
+    List.map_map]
+  rfl
+
+/-- **(b) on every kind of data: the scaled value is the sum over the observations divided by the
+sample size** — the number of individuals for panel data, not the number of rows -/
+theorem scaled_sample_size (panel : Option (List Int)) (nRows T : ℕ) (w : Option (ℕ → ℝ)) (l : ℕ → ℝ)
+    (hM : 1 ≤ sampleSize panel nRows) (hT : 1 ≤ T) :
+    reported panel nRows true (loglike w l (sampleSize panel nRows) T)
+      = ((List.range (sampleSize panel nRows)).map (term w l)).sum / (sampleSize panel nRows : ℝ) ∧
+    reported panel nRows false (loglike w l (sampleSize panel nRows) T)
+      = ((List.range (sampleSize panel nRows)).map (term w l)).sum := by
+  unfold loglike
+  rw [sum_blocks _ _ _ T hM hT]
+  unfold reported scaledBy
+  simp
+
+/-- **(f) gradient, Hessian and BHHH are scaled by the same sample size** -/
+theorem scaled_derivatives (panel : Option (List Int)) (nRows T i j : ℕ) (w : Option (ℕ → ℝ))
+    (g : ℕ → ℕ → ℝ) (h : ℕ → ℕ → ℕ → ℝ) (hM : 1 ≤ sampleSize panel nRows) (hT : 1 ≤ T)
+    (hsym : ∀ n a b, h n a b = h n b a) :
+    reported panel nRows true (gradEntry w g (sampleSize panel nRows) T i)
+      = ((List.range (sampleSize panel nRows)).map (term w fun n => g n i)).sum
+        / (sampleSize panel nRows : ℝ) ∧
+    reported panel nRows true (hessEntry w h (sampleSize panel nRows) T i j)
+      = ((List.range (sampleSize panel nRows)).map (term w fun n => h n i j)).sum
+        / (sampleSize panel nRows : ℝ) ∧
+    reported panel nRows true (bhhhEntry w g (sampleSize panel nRows) T i j)
+      = ((List.range (sampleSize panel nRows)).map (bhhhTerm w g i j)).sum
+        / (sampleSize panel nRows : ℝ) := by
+  rw [gradient_sum w g _ T i hM hT, hessian_sum w h _ T i j hM hT hsym, bhhh_sum w g _ T i j hM hT]
+  unfold reported scaledBy
+  simp
+
 end C04
